@@ -30,12 +30,12 @@ Print Assumptions C08_tcp_conservative.
 
 (* One rule: Builder.build's per-rule body (New + MigrateTrustDomain + Generate) yields a policy
    that matches exactly when the rule-as-expressible matches; a skipped rule matches nothing. *)
-Theorem C08_rule_translation_partial : forall o allow ru r,
+Theorem C08_rule_translation_partial : forall o allow pns ru r,
   leaves_ok (tcp o) (negb (use_filter_state o)) r ->
-  alias_free (trust_domains o) ru ->
-  match compile_rule o allow ru with
-  | Some p => eval_rpolicy p r = rule_view_matches (tcp o) allow ru r
-  | None => rule_view_matches (tcp o) allow ru r = false
+  alias_free (trust_domains o) pns ru ->
+  match compile_rule o allow pns ru with
+  | Some p => eval_rpolicy p r = rule_view_matches (tcp o) allow pns ru r
+  | None => rule_view_matches (tcp o) allow pns ru r = false
   end.
 Proof. exact compile_rule_spec. Qed.
 Print Assumptions C08_rule_translation_partial.
